@@ -81,6 +81,11 @@ pub(crate) fn tokenize(
 // another file) would otherwise recurse until the stack overflows
 pub(crate) const MAX_INCLUDE_DEPTH: usize = 32;
 
+// the maximum number of files that can be loaded through /include directives while one file is read.
+// The nesting limit alone does not bound the work: a few files which each include the next one
+// twice would be loaded 2^32 times
+pub(crate) const MAX_INCLUDED_FILES: usize = 10_000;
+
 fn tokenize_nested(
     filename: &Filename,
     fileid: usize,
@@ -135,10 +140,13 @@ fn tokenize_nested(
 
                 // check if incname is an accessible file
                 let incpathref = Path::new(&incfilename);
-                let loadresult = if include_depth < MAX_INCLUDE_DEPTH {
+                let loadresult = if include_depth < MAX_INCLUDE_DEPTH
+                    && next_fileid <= MAX_INCLUDED_FILES
+                {
                     loader::load(incpathref).ok()
                 } else {
-                    // the include files are nested too deeply, most likely this is a circular include
+                    // the include files are nested too deeply, most likely this is a circular include,
+                    // or the number of included files (next_fileid counts all of them) is not plausible
                     None
                 };
                 if let Some(incfiledata) = loadresult {
